@@ -67,7 +67,12 @@ def run(ctx):
     res = ctx.component('K-UPD-W', cases, keys={'dims', 'w1'})
     traj, tmetas = [], {}
     for k in range(ctx.budget(80, 3000)):
-        line, m = gen.gen_e2e(rng.fork('t%d' % k), 600000 + k, maxit_max=20, r_max=2, trace=2)
+        # every third run: several realizations into output containers that still hold an earlier result (rows of vertices outside the lists
+        # must be zero again at every realization's start, or the expected edge count exceeds the observed one)
+        if k % 3 == 2:
+            line, m = gen.gen_e2e(rng.fork('t%d' % k), 600000 + k, maxit_max=20, r=rng.rint(2, 3), trace=2, prior='previous')
+        else:
+            line, m = gen.gen_e2e(rng.fork('t%d' % k), 600000 + k, maxit_max=20, r_max=2, trace=2)
         traj.append(line)
         tmetas[600000 + k] = m
     res2 = ctx.component('K-E2E(trajectories, implementation only)', traj, model=False)
